@@ -186,3 +186,59 @@ func DeclKey(p *packages.Package, fd *ast.FuncDecl) string {
 }
 
 var _ = token.NoPos
+
+// TypeSwitchTable extracts, from the first type switch of fd, the map case-type-name -> outcome, where outcome is
+// "return", "return:<expr>", "panic:<type or expr>" or "other" (the clause body's last statement).
+func TypeSwitchTable(fd *ast.FuncDecl, info *types.Info) (map[string]string, *ast.TypeSwitchStmt) {
+	var ts *ast.TypeSwitchStmt
+	ast.Inspect(fd, func(n ast.Node) bool {
+		if x, ok := n.(*ast.TypeSwitchStmt); ok && ts == nil {
+			ts = x
+		}
+		return ts == nil
+	})
+	if ts == nil {
+		return nil, nil
+	}
+	out := map[string]string{}
+	for _, st := range ts.Body.List {
+		cc := st.(*ast.CaseClause)
+		oc := "other"
+		if len(cc.Body) > 0 {
+			switch s := cc.Body[len(cc.Body)-1].(type) {
+			case *ast.ReturnStmt:
+				oc = "return"
+				if len(s.Results) > 0 {
+					oc = "return:" + types.ExprString(s.Results[0])
+				}
+			case *ast.ExprStmt:
+				if c, ok := s.X.(*ast.CallExpr); ok {
+					if id, ok := c.Fun.(*ast.Ident); ok && id.Name == "panic" && len(c.Args) == 1 {
+						a := c.Args[0]
+						if ue, ok := a.(*ast.UnaryExpr); ok && ue.Op == token.AND {
+							a = ue.X
+						}
+						if cl, ok := a.(*ast.CompositeLit); ok {
+							_, tn := ExprTypeName(cl, info)
+							oc = "panic:" + tn
+						} else {
+							oc = "panic:" + types.ExprString(a)
+						}
+					}
+				}
+			}
+		}
+		if cc.List == nil {
+			out["default"] = oc
+			continue
+		}
+		for _, e := range cc.List {
+			name := types.ExprString(e)
+			if tv, ok := info.Types[e]; ok && tv.IsType() {
+				_, name = TypeName(tv.Type)
+			}
+			out[name] = oc
+		}
+	}
+	return out, ts
+}
